@@ -220,7 +220,13 @@ TPersist ==
   /\ G12(RtOK)
   \* a closed channel accepts no further revocation secret (in particular not a forged one)
   /\ Closed(EP(R.chan, R.node)) => G5(StepsOf("commitment_secret") = {})
-  /\ IF ~R.has_update \/ Closed(EP(R.chan, R.node)) \/ R.kind = "load" THEN UNCHANGED cvars
+  /\ IF ~R.has_update /\ R.kind = "update" /\ ~Closed(EP(R.chan, R.node)) /\ Closed(Peer(EP(R.chan, R.node)))
+        /\ R.id > mon[EP(R.chan, R.node)].last
+     THEN \* a full write at a NEW id: the monitor, which has seen the peer's close on the chain, refused an update (a node that
+          \* was down replays a write that never landed after catching up with the chain); the refused update keeps its id
+          /\ mon' = [mon EXCEPT ![EP(R.chan, R.node)].last = R.id]
+          /\ Unch(<<par, cnt, hs, fees, feeBase, base, link, redo, lastCS, order, pts, ownExp>>)
+     ELSE IF ~R.has_update \/ Closed(EP(R.chan, R.node)) \/ R.kind = "load" THEN UNCHANGED cvars
      ELSE IF StepsOf("force_closed") # {} /\ Closed(Peer(EP(R.chan, R.node)))
      THEN \* the peer has closed (its commitment is on the chain, or it said so): this side gives the channel up too
           /\ link' = [link EXCEPT ![EP(R.chan, R.node)] = "closed"]
